@@ -87,14 +87,19 @@ def recording():
     wrap(C, "find_covalently_coupled_groups",
          lambda r, tok, self: events.append({"ev": "CovFind", "c": _conf_id(self.name), "ng": len(self.groups)}))
     wrap(C, "coupling_effects", lambda r, tok, self: events.append({"ev": "Penalise", "c": _conf_id(self.name)}))
+    import zlib
     wrap(C, "calculate_pka", lambda r, tok, self, *a, **k: events.append(
-        {"ev": "Score", "c": _conf_id(self.name), "ng": len(self.groups), "dirty": _dirty(self)}))
+        {"ev": "Score", "c": _conf_id(self.name), "ng": len(self.groups), "dirty": _dirty(self),
+         "h": zlib.crc32(repr(_digest(self)).encode()) & 0x3fffffff}))
     wrap(C, "find_non_covalently_coupled_groups",
          lambda r, tok, self, *a, **k: events.append({"ev": "NonCov", "c": _conf_id(self.name), "ng": len(self.groups),
-                                                     "dirty": _dirty(self), "neutral": tok == _digest(self)}),
+                                                     "dirty": _dirty(self), "neutral": tok == _digest(self),
+                                                     "display": bool(getattr(self.molecular_container.options,
+                                                                             "display_coupled_residues", False))}),
          before=lambda self, *a, **k: _digest(self))
     wrap(mc.MolecularContainer, "average_of_conformations",
-         lambda r, tok, self: events.append({"ev": "Average", "dirty": _dirty(self.conformations["AVR"])}))
+         lambda r, tok, self: events.append({"ev": "Average", "dirty": _dirty(self.conformations["AVR"]),
+                                             "h": zlib.crc32(repr(_digest(self.conformations["AVR"])).encode()) & 0x3fffffff}))
     wrap(mc.MolecularContainer, "write_pka", lambda r, tok, self, *a, **k: events.append({"ev": "Write"}))
     try:
         yield events
